@@ -288,6 +288,40 @@ def eval_transposed(ename, tname, data):
     return out
 
 
+def eval_transposed_history(ename, order):
+    """the offset table is an ARGUMENT: the same list object edited in place between calls, throw-away list objects (a later
+    one may live at the address of an earlier one) and the table types the hashes use (tuple / list) all select by the
+    table's CURRENT contents.  One history = every table in the given order through one scratch list, each preceded by a
+    throw-away copy; compared call by call with the reference"""
+    eng, alpha, big, can = engines()[ename]
+    tabs = offset_tables()
+    names = sorted(tabs) if order == "sorted" else sorted(tabs, reverse=True) if order == "reversed" else sorted(tabs, key=lambda k: (len(tabs[k]), k))
+    scratch = []
+    out = []
+    for step, tname in enumerate(names):
+        offs = tabs[tname]
+        n = (max(offs) + 1) if offs else 3
+        data = bytes((7 * i + 3 + step) & 0xFF for i in range(n))
+        want = R.encode_bytes(bytes(data[o] for o in offs), alpha, big)
+        for how in ("throwaway", "scratch", "scratch_reversed"):
+            try:
+                if how == "throwaway":
+                    got, w = eng.encode_transposed_bytes(data, list(offs)), want
+                elif how == "scratch":
+                    scratch[:] = offs
+                    got, w = eng.encode_transposed_bytes(data, scratch), want
+                else:
+                    scratch.reverse()
+                    got, w = eng.encode_transposed_bytes(data, scratch), R.encode_bytes(bytes(data[o] for o in reversed(offs)), alpha, big)
+            except Exception as e:  # noqa: BLE001
+                out.append((f"C12|{ename}|encode_transposed:history:{how}:raises:{type(e).__name__}", f"step {step} (table {tname}, {how}) raised {e!r}"))
+                return out
+            if got != w:
+                out.append((f"C12|{ename}|encode_transposed:history:{how}", f"step {step} of the history '{order}': encode_transposed_bytes({data!r}, {tname} as {how} list) = {got!r}, reference {w!r}"))
+                return out
+    return out
+
+
 HELPERS = ("b64s", "ab64", "b32", "libpass_b64s", "libpass_ab64")
 
 
@@ -385,6 +419,7 @@ EVALS = {
     "int": lambda c: eval_int(c["engine"], c["bits"], c["value"]),
     "int_text": lambda c: eval_int_text(c["engine"], c["bits"], c["text"]),
     "transposed": lambda c: eval_transposed(c["engine"], c["table"], c["data"]),
+    "transposed_history": lambda c: eval_transposed_history(c["engine"], c["order"]),
     "helper": lambda c: eval_helper(c["helper"], c["data"]),
     "helper_bad": lambda c: eval_helper_bad(c["helper"], c["text"]),
 }
@@ -528,6 +563,8 @@ def work(task):
             for ci, data in enumerate((bytes(range(1, n + 1)), filler(seed, n, b"t"), bytes(255 - i for i in range(n)))):
                 _do(acc, {"kind": "transposed", "engine": ename, "table": tname, "data": data}, (ename, "transposed", tname, ci))
             acc.axis("table", tname)
+        for order in ("sorted", "reversed", "by_length"):
+            _do(acc, {"kind": "transposed_history", "engine": ename, "order": order}, (ename, "transposed_history", order))
     elif part == "helper":
         h = task["helper"]
         if task.get("n"):
